@@ -1024,12 +1024,14 @@ class FortranFile:
 
         # Check for single line edit
         if (start_line == end_line) and (len(text_split) == 1):
+            # What the line defined before the edit is gone afterwards
+            reparse_old = check_change_reparse(start_line)
             prev_line = self.contents_split[start_line]
             self.contents_split[start_line] = (
                 prev_line[:start_col] + text + prev_line[end_col:]
             )
             self.contents_pp[start_line] = self.contents_split[start_line]
-            return check_change_reparse(start_line)
+            return check_change_reparse(start_line) or reparse_old
 
         # Apply standard change to document
         new_contents = []
